@@ -303,6 +303,28 @@ theorem visited_eq (nb d : Nat) :
     · exact hdisj a ha hb
 
 
+theorem iterList_nodup_iff (nb d : Nat) : (iterList nb d).Nodup ↔ 0 ∉ headPart d := by
+  rw [iterList_eq]
+  show (headPart d ++ 0 :: zerosFrom d 1 (nb - 1)).Nodup ↔ _
+  have hZ0 : (0 : Nat) ∉ zerosFrom d 1 (nb - 1) := by
+    intro h; have := (mem_zerosFrom.1 h).1; omega
+  have hZn : (zerosFrom d 1 (nb - 1)).Nodup :=
+    (pairwise_zerosFrom d _ 1).imp (fun h => Nat.ne_of_lt h)
+  have hAn : (headPart d).Nodup := (pairwise_headPart d).imp (fun h => (Nat.ne_of_lt h).symm)
+  constructor
+  · intro h h0
+    exact (List.nodup_append.1 h).2.2 0 h0 0 (List.mem_cons_self ..) rfl
+  · intro h0
+    refine List.nodup_append.2 ⟨hAn, List.nodup_cons.2 ⟨hZ0, hZn⟩, ?_⟩
+    intro a ha b hb hab
+    subst hab
+    rcases List.mem_cons.1 hb with rfl | hb
+    · exact h0 ha
+    · have hz' := mem_zerosFrom.1 hb
+      rcases mem_headPart.1 ha with ⟨_, rfl⟩ | hbit
+      · omega
+      · simp [hbit] at hz'
+
 theorem mem_visited {nb d a : Nat} :
     a ∈ visited nb d ↔ a ∈ headPart d ∨ a = 0 ∨ a ∈ zerosFrom d 1 (nb - 1) := by
   rw [visited_eq]
